@@ -305,13 +305,12 @@ Proof.
       assert (F2 : requests s2 = []) by reflexivity.
       assert (F3 : sent_continue s2 = sent_continue s) by reflexivity.
       assert (F4 : outlog s2 = outlog s) by reflexivity.
-      assert (F5 : bad s2 = bad s) by reflexivity.
       assert (F6 : askers s2 = askers s) by reflexivity.
       assert (F7 : next_id s2 = next_id s) by reflexivity.
       clearbody s2.
-      constructor; rewrite ?F1, ?F2, ?F3, ?F4, ?F5, ?F6, ?F7; auto.
+      constructor; rewrite ?F1, ?F2, ?F3, ?F4, ?F6, ?F7; auto.
       * intros q' Hq'. inv_some. simpl. split; [discriminate|assumption].
-      * intros q' Hq' Hb. inv_some. simpl in Hb. specialize (C3 q eq_refl Hb).
+      * intros q' Hq'. inv_some. specialize (C3 q eq_refl).
         unfold good_cur in *. rewrite Hs in C3. rewrite Es, F3, F4.
         destruct C3 as ((G1 & G2 & G3 & G4) & G5 & G6). unfold sent_for in *.
         rewrite Ew1 in G5. rewrite andb_false_r in G5. rewrite Ew2 in G4.
@@ -321,10 +320,10 @@ Proof.
       * rewrite Es. discriminate.
     + inv_some. eapply InvC_frame2; eauto.
       * apply is_sending_eq; auto. simpl. rewrite Hact. reflexivity.
-      * simpl. intros _ Hcon Hcwf Hrest. right. intros q Hq' Hb Hhf Hex. subst rest.
+      * simpl. intros _ Hcon Hcwf Hrest. right. intros q Hq' Hhf Hex. subst rest.
         rewrite Hcon in Ew. simpl in Ew. unfold wants_continue in Ew. simpl in Ew. rewrite Hq', Hex, Hhf in Ew.
         simpl in Ew. apply negb_false_iff in Ew.
-        pose proof (C_good s HC q Hq' Hb) as G. unfold good_cur in G. rewrite Hs in G.
+        pose proof (C_good s HC q Hq') as G. unfold good_cur in G. rewrite Hs in G.
         destruct G as (_ & _ & G6). unfold sent_for in G6. rewrite Hex, andb_false_r in G6. congruence.
 Qed.
 
@@ -356,21 +355,18 @@ Proof.
   (* facts about q0 *)
   assert (K0 : (a_expect q0 = true -> g_asked q0 = true) /\
                (g_asked q0 = true -> In (rid q0) (askers s)) /\
-               (~ In (rid q0) (bad s) ->
-                  good_pre q0 /\ cnt (rid q0) (outlog s) = (if sent_for q0 then 1 else 0) /\
-                  sent_continue s = sent_for q0)).
+               (good_pre q0 /\ cnt (rid q0) (outlog s) = (if sent_for q0 then 1 else 0) /\
+                sent_continue s = sent_for q0)).
   { destruct (request s) as [q|] eqn:Er; destruct Hq0 as [-> Hf].
     - destruct (C2 q eq_refl) as [K1 K2]. split; [auto|split; [auto|]].
-      intros Hb; specialize (C3 q eq_refl Hb); unfold good_cur in C3; rewrite Hs in C3; tauto.
-    - simpl. split; [discriminate|split; [discriminate|]]. intros _.
+      specialize (C3 q eq_refl); unfold good_cur in C3; rewrite Hs in C3; tauto.
+    - simpl. split; [discriminate|split; [discriminate|]].
       split; [unfold good_pre; simpl; repeat split; auto; discriminate|].
       split; [apply fresh_cnt_zero; auto|apply C1; reflexivity]. }
   destruct K0 as (K1 & K2 & K3).
   assert (L1 : a_expect q1 = true -> g_asked q1 = true) by auto.
   assert (L2 : g_asked q1 = true -> In (rid q1) (askers s1)).
   { intros Hq. rewrite F14, Hq. left. reflexivity. }
-  assert (Hbadlt : forall i, In i (bad s) -> i < next_id s1).
-  { intros i Hi. specialize (C6 i Hi). rewrite F13. destruct fresh; lia. }
   assert (Hask1 : forall i w, In (TInterim i w) (outlog s) -> In i (askers s1)).
   { intros i w Hi. rewrite F14. specialize (C7 i w Hi). destruct (g_asked q1); [right|]; assumption. }
   destruct Hcase as [[Hw ->]|[Hw [l' Hc]]].
@@ -385,15 +381,14 @@ Proof.
     assert (G2 : requests s2 = requests s) by (unfold s2; simpl; assumption).
     assert (G3 : sent_continue s2 = sent_continue s) by (unfold s2; simpl; assumption).
     assert (G4 : outlog s2 = outlog s) by (unfold s2; simpl; assumption).
-    assert (G5 : bad s2 = bad s) by (unfold s2; simpl; assumption).
     assert (G6 : askers s2 = askers s1) by reflexivity.
     assert (G7 : next_id s2 = next_id s1) by reflexivity.
     assert (G8 : io s2 = IOSend more) by reflexivity.
     clearbody s2.
-    constructor; rewrite ?G1, ?G2, ?G3, ?G4, ?G5, ?G6, ?G7; auto.
+    constructor; rewrite ?G1, ?G2, ?G3, ?G4, ?G6, ?G7; auto.
     + intros q' Hq'. inv_some. simpl. split; [discriminate|assumption].
-    + intros q' Hq' Hb. inv_some. simpl in Hb. rewrite Hrid in Hb.
-      destruct (K3 Hb) as (P1 & P2 & P3). destruct (Hgood P1) as (Q1 & Q2 & Q3 & Q4 & Q5).
+    + intros q' Hq'. inv_some.
+      destruct K3 as (P1 & P2 & P3). destruct (Hgood P1) as (Q1 & Q2 & Q3 & Q4 & Q5).
       unfold good_cur. rewrite Es, G3, G4. simpl. rewrite Hrid, P2.
       unfold sent_for. rewrite <- Q5, Hw1, andb_false_r. repeat split; auto.
     + intros _ q' Hq'. inv_some. simpl. auto.
@@ -408,7 +403,7 @@ Proof.
       rewrite F1 in Sq. inv_some.
       constructor; rewrite ?Sr, ?Ssc, ?Srs, ?S5, ?S6, ?S7, ?S8, ?F2, ?F11, ?F12; auto; try discriminate.
       * intros r Hr. apply in_app_or in Hr. destruct Hr as [Hr|[<-|[]]]; [auto|].
-        repeat split; auto. intros Hb. rewrite Hrid in Hb. destruct (K3 Hb) as (P1 & _).
+        repeat split; auto. destruct K3 as (P1 & _).
         destruct (Hgood P1) as (_ & Q2 & _). assumption.
     + rewrite F1 in Sq. inv_some.
       constructor; rewrite ?Sr, ?Ssc, ?Srs, ?S5, ?S6, ?S7, ?S8, ?F2, ?F11, ?F12; auto; try discriminate.
@@ -416,14 +411,14 @@ Proof.
       rewrite F1 in Sr. specialize (Sc q1 F1).
       constructor; rewrite ?Sr, ?Ssc, ?Srs, ?S5, ?S6, ?S7, ?S8, ?F2, ?F3, ?F11, ?F12; auto; try discriminate.
       * intros q' Hq'. inv_some. auto.
-      * intros q' Hq' Hb. inv_some. rewrite Hrid in Hb.
-        destruct (K3 Hb) as (P1 & P2 & P3). destruct (Hgood P1) as (Q1 & Q2 & Q3 & Q4 & Q5).
+      * intros q' Hq'. inv_some.
+        destruct K3 as (P1 & P2 & P3). destruct (Hgood P1) as (Q1 & Q2 & Q3 & Q4 & Q5).
         unfold good_cur. rewrite Es, Ssc, S5, F3, F11, Hrid, P2, P3. unfold sent_for in *. rewrite Q5.
         split; [auto|split; reflexivity].
       * rewrite Es. discriminate.
       * intros _ q' Hq'. inv_some. assumption.
-      * intros _ Hcon Hcwf Hrs q' Hq' Hb Hhf Hex. inv_some. rewrite Hrid in Hb.
-        destruct (K3 Hb) as (P1 & P2 & P3). destruct (Hgood P1) as (Q1 & Q2 & Q3 & Q4 & Q5).
+      * intros _ Hcon Hcwf Hrs q' Hq' Hhf Hex. inv_some.
+        destruct K3 as (P1 & P2 & P3). destruct (Hgood P1) as (Q1 & Q2 & Q3 & Q4 & Q5).
         unfold wants_continue in Hw. rewrite F1, F2, F3, Hrs, Hex, Hhf in Hw. simpl in Hw.
         rewrite andb_true_r in Hw. apply negb_false_iff in Hw.
         unfold sent_for in *. rewrite Hw in P3. rewrite <- Q5 in P3. rewrite Hex, andb_false_r in P3. discriminate.
